@@ -558,7 +558,7 @@ def _jinja_literal(v):
     return repr(v)
 
 
-def render(doc, files, layout, params, directory):
+def render(doc, files, layout, params, directory, prologue=""):
     """
     Writes the track into `directory`: track.json with shuffled key order, optional parts pulled in by rally.collect, index bodies /
     templates as files, scalar values replaced by Jinja parameters `{{ pN | default(<v>) }}` (user supplied: the template default is a
@@ -621,6 +621,8 @@ def render(doc, files, layout, params, directory):
     texts = {"track.json": dumps(main)}
     if layout.get("import") or collects:
         texts["track.json"] = '{% import "rally.helpers" as rally with context %}\n' + texts["track.json"]
+    if prologue:
+        texts["track.json"] = prologue + "\n" + texts["track.json"]
     texts.update(parts)
     for name, content in docs.items():
         texts[name] = dumps(_reorder(content, order))
